@@ -23,7 +23,7 @@
 From Coq Require Import ZArith List Bool String Reals.
 From Flocq Require Import Core.
 From FpyV Require Import Num.RealFloat Num.RealFloatProofs Num.Float
-  Lib.Eft Lib.EftProofs Lib.EftMulProofs Lib.EftExecProofs Lib.Decomp Lib.DecompProofs.
+  Lib.Eft Lib.EftReal Lib.EftProofs Lib.EftMulProofs Lib.EftExecProofs Lib.Decomp Lib.DecompProofs.
 Import ListNotations.
 Open Scope R_scope.
 Open Scope string_scope.
